@@ -57,21 +57,59 @@ impl Buf {
     }
 }
 
-fn put_utf8(o: &mut Buf, c: u32) {
-    if c < 0x80 {
-        o.push(c as u8);
-    } else if c < 0x800 {
-        o.push(0xC0 | (c >> 6) as u8);
-        o.push(0x80 | (c & 0x3F) as u8);
-    } else if c < 0x1_0000 {
-        o.push(0xE0 | (c >> 12) as u8);
-        o.push(0x80 | ((c >> 6) & 0x3F) as u8);
-        o.push(0x80 | (c & 0x3F) as u8);
-    } else {
-        o.push(0xF0 | (c >> 18) as u8);
-        o.push(0x80 | ((c >> 12) & 0x3F) as u8);
-        o.push(0x80 | ((c >> 6) & 0x3F) as u8);
-        o.push(0x80 | (c & 0x3F) as u8);
+/// A scalar value together with its UTF-8 length class (1..=4).  The class is always a CONCRETE
+/// value in the harnesses; the encoders branch on the class, never on the (possibly symbolic)
+/// scalar, so that every encoded length is concrete for CBMC.  `Sc::check` ties the two together.
+#[derive(Clone, Copy)]
+struct Sc {
+    c: u32,
+    class: u8,
+}
+
+impl Sc {
+    const fn of(c: u32) -> Sc {
+        let class = if c < 0x80 {
+            1
+        } else if c < 0x800 {
+            2
+        } else if c < 0x1_0000 {
+            3
+        } else {
+            4
+        };
+        Sc { c, class }
+    }
+    /// class membership (a harness `assume`s this for symbolic scalars, `assert`s it for constants)
+    fn in_class(&self) -> bool {
+        match self.class {
+            1 => self.c <= 0x7F,
+            2 => self.c >= 0x80 && self.c <= 0x7FF,
+            3 => self.c >= 0x800 && self.c <= 0xFFFF && !(self.c >= 0xD800 && self.c <= 0xDFFF),
+            4 => self.c >= 0x1_0000 && self.c <= 0x10_FFFF,
+            _ => false,
+        }
+    }
+}
+
+fn put_utf8(o: &mut Buf, s: Sc) {
+    let c = s.c;
+    match s.class {
+        1 => o.push(c as u8),
+        2 => {
+            o.push(0xC0 | (c >> 6) as u8);
+            o.push(0x80 | (c & 0x3F) as u8);
+        }
+        3 => {
+            o.push(0xE0 | (c >> 12) as u8);
+            o.push(0x80 | ((c >> 6) & 0x3F) as u8);
+            o.push(0x80 | (c & 0x3F) as u8);
+        }
+        _ => {
+            o.push(0xF0 | (c >> 18) as u8);
+            o.push(0x80 | ((c >> 12) & 0x3F) as u8);
+            o.push(0x80 | ((c >> 6) & 0x3F) as u8);
+            o.push(0x80 | (c & 0x3F) as u8);
+        }
     }
 }
 
@@ -85,17 +123,19 @@ fn put_u16(o: &mut Buf, u: u16, be: bool) {
     }
 }
 
-fn put_utf16(o: &mut Buf, c: u32, be: bool) {
-    if c < 0x1_0000 {
+fn put_utf16(o: &mut Buf, s: Sc, be: bool) {
+    let c = s.c;
+    if s.class < 4 {
         put_u16(o, c as u16, be);
     } else {
-        let v = c - 0x1_0000;
-        put_u16(o, 0xD800 | (v >> 10) as u16, be);
+        let v = c.wrapping_sub(0x1_0000);
+        put_u16(o, 0xD800 | ((v >> 10) & 0x3FF) as u16, be);
         put_u16(o, 0xDC00 | (v & 0x3FF) as u16, be);
     }
 }
 
-fn put_utf32(o: &mut Buf, c: u32, be: bool) {
+fn put_utf32(o: &mut Buf, s: Sc, be: bool) {
+    let c = s.c;
     if be {
         o.push((c >> 24) as u8);
         o.push((c >> 16) as u8);
@@ -110,16 +150,18 @@ fn put_utf32(o: &mut Buf, c: u32, be: bool) {
 }
 
 /// width: 1 = UTF-8, 2 = UTF-16, 4 = UTF-32
-fn put(o: &mut Buf, c: u32, width: u8, be: bool) {
+fn put(o: &mut Buf, s: Sc, width: u8, be: bool) {
     match width {
-        1 => put_utf8(o, c),
-        2 => put_utf16(o, c, be),
-        _ => put_utf32(o, c, be),
+        1 => put_utf8(o, s),
+        2 => put_utf16(o, s, be),
+        _ => put_utf32(o, s, be),
     }
 }
 
 /// the character set named by the property: 1-, 2-, 3- and 4-byte UTF-8 forms; BMP and non-BMP
-const SET: [u32; 4] = [0x61, 0xE9, 0x20AC, 0x1_F600];
+const SET: [Sc; 4] = [Sc::of(0x61), Sc::of(0xE9), Sc::of(0x20AC), Sc::of(0x1_F600)];
+const BOM: Sc = Sc::of(0xFEFF);
+const NONE: Sc = Sc { c: 0, class: 1 };
 
 fn same_bytes(s: &str, exp: &Buf) -> bool {
     let sb = s.as_bytes();
@@ -138,15 +180,16 @@ fn same_bytes(s: &str, exp: &Buf) -> bool {
 
 /// Encode `cs[..n]` with encoding (width, be, bom), run the verbatim tail of `load` on it and
 /// require the UTF-8 form of `cs[..n]` as result.  `n` is concrete at every call site.
-fn roundtrip_text(width: u8, be: bool, bom: bool, n: usize, cs: [u32; 3]) -> usize {
+fn roundtrip_text(width: u8, be: bool, bom: bool, n: usize, cs: [Sc; 3]) -> usize {
     let mut enc = Buf::new();
     let mut exp = Buf::new();
     if bom {
-        put(&mut enc, 0xFEFF, width, be);
+        put(&mut enc, BOM, width, be);
     }
     let mut k = 0;
     while k < 3 {
         if k < n {
+            assert!(cs[k].in_class() && cs[k].c != 0, "C17 harness: scalar outside its declared class");
             put(&mut enc, cs[k], width, be);
             put_utf8(&mut exp, cs[k]);
         }
@@ -163,11 +206,9 @@ fn roundtrip_text(width: u8, be: bool, bom: bool, n: usize, cs: [u32; 3]) -> usi
     enc.n
 }
 
-fn first_scalar(symbolic_c0: bool) -> u32 {
+fn first_scalar(symbolic_c0: bool) -> Sc {
     if symbolic_c0 {
-        let c: u8 = kani::any();
-        kani::assume(c >= 1 && c <= 0x7F);
-        c as u32
+        any_scalar_of_class(1)
     } else {
         SET[0]
     }
@@ -180,11 +221,11 @@ fn first_scalar(symbolic_c0: bool) -> u32 {
 fn roundtrip_set(width: u8, be: bool, bom: bool, symbolic_c0: bool) -> u8 {
     let c0 = first_scalar(symbolic_c0);
     let mut residues: u8 = 0;
-    let l = roundtrip_text(width, be, bom, 1, [c0, 0, 0]);
+    let l = roundtrip_text(width, be, bom, 1, [c0, NONE, NONE]);
     residues |= 1 << (l % 4);
     let mut i1 = 0;
     while i1 < 4 {
-        let l = roundtrip_text(width, be, bom, 2, [c0, SET[i1], 0]);
+        let l = roundtrip_text(width, be, bom, 2, [c0, SET[i1], NONE]);
         residues |= 1 << (l % 4);
         let mut i2 = 0;
         while i2 < 4 {
@@ -203,9 +244,9 @@ fn roundtrip_set(width: u8, be: bool, bom: bool, symbolic_c0: bool) -> u8 {
 fn roundtrip_sample(width: u8, be: bool, bom: bool, symbolic_c0: bool) -> u8 {
     let c0 = first_scalar(symbolic_c0);
     let mut residues: u8 = 0;
-    let l = roundtrip_text(width, be, bom, 1, [c0, 0, 0]);
+    let l = roundtrip_text(width, be, bom, 1, [c0, NONE, NONE]);
     residues |= 1 << (l % 4);
-    let l = roundtrip_text(width, be, bom, 2, [c0, SET[2], 0]);
+    let l = roundtrip_text(width, be, bom, 2, [c0, SET[2], NONE]);
     residues |= 1 << (l % 4);
     let l = roundtrip_text(width, be, bom, 3, [c0, SET[1], SET[2]]);
     residues |= 1 << (l % 4);
@@ -268,16 +309,11 @@ c17_roundtrip!(c17_rtq_utf32be, c17_rt_utf32be, c17_rtsym_utf32be, 4, true, fals
 c17_roundtrip!(c17_rtq_utf32be_bom, c17_rt_utf32be_bom, c17_rtsym_utf32be_bom, 4, true, true, 0b0001, "C17(b) UTF-32BE with BOM.");
 
 /// a symbolic scalar value whose UTF-8 form has exactly `class` bytes (class 1 excludes U+0000;
-/// class 3 excludes the surrogates D800..DFFF)
-fn any_scalar_of_class(class: u8) -> u32 {
-    let c: u32 = kani::any();
-    match class {
-        1 => kani::assume(c >= 1 && c <= 0x7F),
-        2 => kani::assume(c >= 0x80 && c <= 0x7FF),
-        3 => kani::assume(c >= 0x800 && c <= 0xFFFF && !(c >= 0xD800 && c <= 0xDFFF)),
-        _ => kani::assume(c >= 0x1_0000 && c <= 0x10_FFFF),
-    }
-    c
+/// class 3 excludes the surrogates D800..DFFF); `class` is concrete
+fn any_scalar_of_class(class: u8) -> Sc {
+    let s = Sc { c: kani::any(), class };
+    kani::assume(s.in_class() && s.c != 0);
+    s
 }
 
 /// (b+) stronger variant for one concrete *shape*: text c0 c1 with c0 any ASCII non-NUL and c1 ANY
@@ -285,7 +321,7 @@ fn any_scalar_of_class(class: u8) -> u32 {
 fn roundtrip_class2(width: u8, be: bool, bom: bool, class1: u8) {
     let c0 = any_scalar_of_class(1);
     let c1 = any_scalar_of_class(class1);
-    roundtrip_text(width, be, bom, 2, [c0, c1, 0]);
+    roundtrip_text(width, be, bom, 2, [c0, c1, NONE]);
 }
 
 macro_rules! c17_roundtrip_any {
